@@ -127,7 +127,7 @@ def from_points_rules(cx, CP, C, d):
                   'every further element is (previous element) + dist(v[i+1], v[i])  (non-negative increment over consecutive vertices)', where=s,
                   found=elems[0][2][0] if elems else None)
             if m:
-                prev_ok = match('(call Option::unwrap_or (call slice::last $L) _)', m['prev']) is not None or \
+                prev_ok = match('(call Option::unwrap_or (call slice::last $L) _)', m['prev']) is not None or match('(unwrap (call slice::last $L))', m['prev']) is not None or \
                     (match('(index $L $i)', m['prev'], {'i': m['i']}) is not None)
                 cx.ob('CONSTRUCT', f'{C}::from_points:lengths:prev', prev_ok, 'the increment is added to the most recent element of lengths (last(), or lengths[i] with one push per i)',
                       where=s, found=m['prev'])
